@@ -163,18 +163,11 @@ class SInt(SVal):
     __hash__ = None
 
 
-_POW2 = None
-
-
 def pow2(e):
-    """2**e for a symbolic non-negative e, as a recursive function."""
-    global _POW2
-    if _POW2 is None:
-        f = z3.RecFunction("pow2", z3.IntSort(), z3.IntSort())
-        n = z3.Int("pow2!n")
-        z3.RecAddDefinition(f, [n], z3.If(n <= 0, z3.IntVal(1), 2 * f(n - 1)))
-        _POW2 = f
-    return _POW2(e)
+    """2**e for a symbolic non-negative e: the spec function p2 (uninterpreted + unfolding + lemma)"""
+    from . import spec as _spec
+    r = _spec.p2(SInt(e) if not isinstance(e, SInt) else e)
+    return r.e if isinstance(r, SInt) else z3.IntVal(r)
 
 
 class SBool(SVal):
